@@ -1,7 +1,59 @@
-(* C05 — OBJ write/read round trip and load/save.  Statements only; proofs live in Formats/ObjProofs.v. *)
-From PF Require Import Base.Bytes Formats.Obj Formats.ObjProofs.
+(* C05 — OBJ write/read round trip and load/save.  Statements only; proofs live in Formats/ObjProofs.v.
+
+   Vocabulary (Formats/Obj.v).  A file is a list of line records (V, VT, VN, G, UseMtl, F a b c, Fn, Short,
+   MtlLib, O, Other); coordinates are float32 words, corners are (v, vt, vn, spelling) with 1-based indices.
+   [write] / [read] model obj.WriteMeshes / obj.ReadMesh of /repo HEAD.  [obs m] = (name, per-corner content
+   in triangle order = (position, uv, normal) as options, material of every triangle).  [file_groups] is the
+   direct, table-free meaning of a line list: it never de-duplicates and never counts ranges.
+   [mat_written] is what the writer does to a material name (nil -> DefaultDiffuse, spaces removed). *)
 From Coq Require Import String.
+From PF Require Import Base.Bytes Formats.Obj Formats.ObjProofs.
 Open Scope nat_scope.
+
+(* Clause 1: writing ANY list of well-formed triangle meshes (any number of meshes, each with or without
+   normals, with or without texture coordinates, with any partition of its triangles into material ranges,
+   empty ranges and nil materials included) and reading the text back yields one group per mesh, with the
+   same name, the same corner contents in the same triangle order and the same material on every triangle.
+   [wf_list]: at least one mesh; index count a multiple of 3; indices in range; an attribute that is present
+   has one entry per vertex; the ranges cover the triangles; no material with an empty name; every mesh but
+   the last has a triangle (the format cannot represent an empty group followed by another group). *)
+Theorem obj_roundtrip : forall mtl ms, wf_list ms = true -> mtl <> Some [] ->
+  exists ls gs, write mtl ms = Ok ls /\ read ls = Ok (gs, libs_of mtl) /\ length gs = length ms /\
+    forall k m g, nth_error ms k = Some m -> nth_error gs k = Some g ->
+      m_name g = m_name m /\ corners g = corners m /\
+      tri_mats (m_mats g) = map (fun mt => Some (mat_written mt)) (tri_mats (m_mats m)).
+Proof. exact roundtrip_groups. Qed.
+Print Assumptions obj_roundtrip.
+
+(* the two halves it is made of: the writer's text is a valid OBJ whose direct meaning is the observation of
+   the meshes (induction over the mesh list; the invariant is that the three running offsets equal the
+   lengths of the v / vt / vn blocks of the meshes already written) ... *)
+Theorem obj_write_meaning : forall mtl ms, wf_list ms = true -> mtl <> Some [] ->
+  exists ls, write mtl ms = Ok ls /\ valid ls = true /\ file_groups ls = map obs_written ms /\
+             lib_names ls = libs_of mtl.
+Proof. exact write_sem. Qed.
+Print Assumptions obj_write_meaning.
+
+(* ... and the reader computes the direct meaning of EVERY valid line list: g / usemtl / f / v / vt / vn /
+   mtllib / o / comment lines in any legal order, all four corner forms (also mixed inside one group), late
+   vertex data, usemtl before g, usemtl immediately followed by g or end of input, faces before the first g
+   or usemtl, bare g, repeated names, corner tokens with unusual spelling; and what it returns is well formed *)
+Theorem obj_read_meaning : forall file, valid file = true ->
+  exists gs, read file = Ok (gs, lib_names file) /\ map obs gs = file_groups file /\ wf_list gs = true.
+Proof. exact read_valid. Qed.
+Print Assumptions obj_read_meaning.
+
+(* Clause 2: loading any valid triangulated OBJ and saving it again loses or invents no face: re-reading the
+   saved text gives, group by group, the same names, the same corner contents in the same order and the same
+   material on every face as the direct meaning of the original file (material names as the writer spells
+   them, i.e. with spaces removed). *)
+Theorem obj_load_save_faces : forall file, valid file = true ->
+  exists gs1 ls gs2,
+    read file = Ok (gs1, lib_names file) /\ map obs gs1 = file_groups file /\
+    write None gs1 = Ok ls /\ valid ls = true /\
+    read ls = Ok (gs2, []) /\ map obs gs2 = map gobs_written (file_groups file).
+Proof. exact load_save. Qed.
+Print Assumptions obj_load_save_faces.
 
 (* The pinned writer (one running offset for v, vt and vn) does not round-trip: a mesh without normals
    followed by a mesh with normals is written with vn indices past the vn block and the reader crashes;
@@ -13,3 +65,65 @@ Theorem obj_shared_offset_refuted :
                  map obs gs = map obs_written [mesh_plain; mesh_nrm]).
 Proof. exact shared_offset_refuted. Qed.
 Print Assumptions obj_shared_offset_refuted.
+
+(* The pinned reader carries "triangles since the last usemtl" across g: the last range of every group but
+   the last keeps count 0 and load -> save -> load fails (f82d47b closes the range at g). *)
+Theorem obj_group_material_refuted :
+  valid file_two_groups = true /\
+  resave cfg_pinned file_two_groups = Crash /\
+  resave cfg_full file_two_groups = Ok (map gobs_written (file_groups file_two_groups)).
+Proof. exact group_material_refuted. Qed.
+Print Assumptions obj_group_material_refuted.
+
+(* Faces before the first g load as an unnamed group, which is saved as a bare "g" line that the reader
+   used to reject (331d6c1). *)
+Theorem obj_bare_group_refuted :
+  valid file_default_group = true /\
+  resave cfg_f82 file_default_group = Declared /\
+  resave cfg_full file_default_group = Ok (map gobs_written (file_groups file_default_group)).
+Proof. exact bare_group_refuted. Qed.
+Print Assumptions obj_bare_group_refuted.
+
+(* A group mixing v//vn and v corners used to load as a mesh with 3 normals for 6 positions; saving and
+   loading that panics (ca6f159 attaches an attribute only when every corner of the group has it). *)
+Theorem obj_mixed_forms_refuted :
+  valid file_mixed_forms = true /\
+  resave {| close_at_g := true; bare_g := true; drop_partial := false |} file_mixed_forms = Crash /\
+  resave cfg_full file_mixed_forms = Ok (map gobs_written (file_groups file_mixed_forms)).
+Proof. exact mixed_forms_refuted. Qed.
+Print Assumptions obj_mixed_forms_refuted.
+
+(* Outside the property ("triangulated"): ReadMesh keeps only the first three corners of a polygon (the fan
+   has two triangles, the reader returns one) and panics on relative (negative) indices. *)
+Theorem obj_polygon_truncated :
+  valid file_quad = false /\
+  (exists gs, read file_quad = Ok (gs, []) /\ map (fun g => length (corners g)) gs = [3]) /\
+  map (fun g : gobs => length (snd (fst g))) (file_groups file_quad) = [6].
+Proof. exact polygon_truncated. Qed.
+Print Assumptions obj_polygon_truncated.
+
+Theorem obj_relative_index_crash : valid file_relative = false /\ read file_relative = Crash.
+Proof. exact relative_index_crash. Qed.
+Print Assumptions obj_relative_index_crash.
+
+(* non-vacuity: three meshes in the mixture the pinned writer got wrong (none / normals / uv+normals), material
+   ranges with an empty range, a nil material and a name with a space; hypotheses hold, the result is computed *)
+Example obj_example :
+  let p4 : list vec3 := [(0, 0, 0); (1065353216, 0, 0); (0, 1065353216, 0); (1065353216, 1065353216, 0)]%N in
+  let u4 : list vec2 := [(0, 0); (1065353216, 0); (0, 1065353216); (1065353216, 1065353216)]%N in
+  let ms := [ {| m_name := ["a"%string]; m_idx := [0; 1; 2; 2; 1; 3]; m_pos := p4; m_uv := []; m_nrm := [];
+                 m_mats := [(1, Some ["my"%string; "mat"%string]); (0, Some ["x"%string]); (1, None)] |};
+              {| m_name := ["wheel"%string; "1"%string]; m_idx := [2; 1; 0]; m_pos := p4; m_uv := []; m_nrm := p4;
+                 m_mats := [] |};
+              {| m_name := []; m_idx := [0; 3; 1]; m_pos := p4; m_uv := u4; m_nrm := p4;
+                 m_mats := [(1, Some ["red"%string])] |} ] in
+  wf_list ms = true /\
+  match write (Some ["m.mtl"%string]) ms with
+  | Ok ls => valid ls = true /\ length ls = 38 /\
+             match read ls with
+             | Ok (gs, libs) => map obs gs = map obs_written ms /\ libs = ["m.mtl"%string]
+             | _ => False
+             end
+  | _ => False
+  end.
+Proof. vm_compute. repeat split; reflexivity. Qed.
